@@ -43,7 +43,8 @@ def check_step_plus_custom(prop, tier):
     rep = new_report(prop, tier, STEP_TECH + " + composition lemmas (call;return / entry;RTE) as Kani harnesses over the real functions")
     run_kani_both(rep, prop)
     if prop in ("C05", "C06"):
-        rep.assumptions.append("arbitrary nesting depth follows from the one-level lemma and the frame clauses (mem_frame) by induction on depth; the induction step is argued in DESIGN.md 5.5, not mechanised")
+        custom_check.run_verus_unit(rep, prop, "nest", "(pure lemma over the single-step contracts: verus/lemmas/nesting.rs)")
+        rep.assumptions.append("arbitrary nesting depth: mechanised as a Verus lemma by structural induction over properly nested programs (verus/lemmas/nesting.rs); what stays argued on paper is the abstraction step - that the single-step contracts proved on the real code instantiate enter/leave/other, and that the body of a routine or handler stores nothing at or above its entry SP")
     return rep.finish(native.find_witness)
 
 
@@ -316,6 +317,45 @@ CHECKS = {
 }
 
 
+UNIT_SOURCES = {
+    "bus": ["src/bus.rs", "src/ioport.rs", "src/memory.rs"],
+    "irq": ["src/cpu/interrupt_controller.rs", "src/cpu.rs"],
+    "run": ["src/cpu.rs", "src/bus.rs"],
+    "div": ["src/cpu/instruction/divxu.rs", "src/cpu/addressing_mode/rn.rs", "src/cpu/instruction.rs", "src/cpu.rs"],
+}
+
+
+def extract_diff(unit):
+    """./check extract-diff <unit>: for every function of the unit, the repository's text against the text Verus sees"""
+    import difflib, importlib
+    sys.path.insert(0, os.path.join(VERIF, "verus"))
+    import extract
+    mod = importlib.import_module("unit_" + unit)
+    text, names = mod.build()
+    for name in names:
+        src_txt = None
+        for f in UNIT_SOURCES.get(unit, []):
+            try:
+                sig, body = extract.get_fn(extract.strip_tests(extract.read(f)), name)
+                src_txt = sig + " " + body
+                break
+            except Exception:
+                continue
+        try:
+            gsig, gbody = extract.get_fn(text, name)
+            gen_txt = gsig + " " + gbody
+        except Exception:
+            gen_txt = ""
+        print("=" * 20, unit, "::", name)
+        if src_txt is None:
+            print("(source not found)")
+            continue
+        norm = lambda t: [l.rstrip() for l in t.splitlines() if l.strip()]
+        for l in difflib.unified_diff(norm(src_txt), norm(gen_txt), "repository", "generated (contract clauses appear as added lines)", lineterm="", n=1):
+            print(l)
+    return 0
+
+
 def main():
     if len(sys.argv) < 2:
         print("usage: check <ID> quick|thorough | check replay <file>")
@@ -329,6 +369,8 @@ def main():
         else:
             print("no failing input recorded (no-failing-input-found); see the logs:", d.get("logs"))
         return 0
+    if sys.argv[1] == "extract-diff":
+        return extract_diff(sys.argv[2] if len(sys.argv) > 2 else "bus")
     prop = sys.argv[1]
     tier = sys.argv[2] if len(sys.argv) > 2 else os.environ.get("VERIF_TIER", "quick")
     if tier not in ("quick", "thorough"):
